@@ -1603,11 +1603,12 @@ Section scmd_ind2.
   Hypothesis H22 : forall h, P (SHandlerWait h).
   Hypothesis H23 : forall (c k : nat), P (SConnect c k).
   Hypothesis H24 : forall (c : nat) (p : Z), P (SEmit c p).
+  Hypothesis H25 : P SProcess.
   Fixpoint scmd_ind2 (c : scmd) : P c :=
     match c with
     | SPush x a => H1 x a | SPushModal x a => H2 x a | SReplace x a => H3 x a | SSchedule x a => H4 x a
     | SCloseSig => H5 | SCloseNow => H6 | SRedrawSig => H7 | SSchedRedraw => H8 | SRaise => H9 | SExit => H10
-    | SForceQuit => H11 | SSysExit => H17 | SRedrawOther x => H18 x | SCloseOther x => H19 x | SGetUserInput => H12 | SSetTypeAhead b => H20 b | SHandlerAsk h b => H21 h b | SHandlerWait h => H22 h | SConnect c k => H23 c k | SEmit c p => H24 c p | SSetInputRequired b => H13 b | SSetAnswer a => H14 a | SMark m => H15 m
+    | SForceQuit => H11 | SSysExit => H17 | SRedrawOther x => H18 x | SCloseOther x => H19 x | SGetUserInput => H12 | SSetTypeAhead b => H20 b | SHandlerAsk h b => H21 h b | SHandlerWait h => H22 h | SConnect c k => H23 c k | SEmit c p => H24 c p | SProcess => H25 | SSetInputRequired b => H13 b | SSetAnswer a => H14 a | SMark m => H15 m
     | SIfCount k t e =>
       H16 k t e
           ((fix go (l : list scmd) : Forall P l :=
@@ -1735,6 +1736,7 @@ Proof.
   - cbn [do_scmd]. sstep L.
   - cbn [do_scmd]. apply (std_handler_ask n L), HI.
   - cbn [do_scmd]. apply (std_handler_wait n L), HI.
+  - cbn [do_scmd]. sstep L.
   - cbn [do_scmd]. sstep L.
   - cbn [do_scmd]. sstep L.
 Qed.
